@@ -184,7 +184,7 @@ func runC05(r *Run) {
 				okIdx := false
 				for _, l := range rangeLoopsOverField(f, "Route.Params") {
 					ci := decompose(l.Cond)
-					if ci.Root == ia.Index && l.Block().Succs[0].Dominates(b) {
+					if ci.Root == ia.Index && dom(l.Block().Succs[0], b) {
 						okIdx = true
 					}
 				}
